@@ -83,8 +83,21 @@ class State:
 
 
 def sort_states(states):
-    tmp = sorted([((x.apocount + x.is_bold + x.is_italic), x) for x in states])
-    return [x[1] for x in tmp]
+    """cheapest first; of the ways to reach the same (apostrophes, bold, italic) only the
+    first is kept - they cost the same from here on, and keeping them all lets the
+    reinterpretations of a long line crowd the plain reading out of the 32 best"""
+    tmp = sorted(
+        enumerate(states),
+        key=lambda ix: (ix[1].apocount + ix[1].is_bold + ix[1].is_italic, ix[1].apocount, ix[0]),
+    )
+    seen = set()
+    res = []
+    for _, x in tmp:
+        key = (x.apocount, x.is_bold, x.is_italic)
+        if key not in seen:
+            seen.add(key)
+            res.append(x)
+    return res
 
 
 def compute_path(counts):
